@@ -74,6 +74,9 @@ func runSolver(sp solverSpec, query string, timeout time.Duration) solveResult {
 
 // discharge decides one obligation: first z3-new; on unknown/timeout the other solvers in parallel.
 func discharge(o *Obligation, quickTimeout, slowTimeout time.Duration, all bool) {
+	if o.gen == nil {
+		return // decided by the generator's own dataflow (ownership obligations)
+	}
 	q := o.query(true)
 	want := "unsat"
 	if o.Cover {
